@@ -5,16 +5,19 @@ package server
 // missing Close.
 
 import (
+	"bytes"
 	"context"
 	"fmt"
 	"io"
 	"net/http"
 	"os"
+	"runtime"
 	"runtime/debug"
 	"strings"
 	"testing"
 	"time"
 
+	pb "github.com/buchgr/bazel-remote/v2/genproto/build/bazel/remote/execution/v2"
 	"google.golang.org/genproto/googleapis/bytestream"
 )
 
@@ -115,5 +118,148 @@ func TestVerifServerFdLeaks(t *testing.T) {
 			}
 		}
 		f.Close()
+	}
+}
+
+// vHandlerGoroutines returns the stacks of goroutines that are still inside a request handler of
+// the server or inside an upload/download of the disk cache.
+var vStackBuf = make([]byte, 8<<20) // one buffer: the garbage collector is off while these tests look
+
+func vHandlerGoroutines() []string {
+	buf := vStackBuf[:runtime.Stack(vStackBuf, true)]
+	var out []string
+	for _, g := range strings.Split(string(buf), "\n\n") {
+		if strings.Contains(g, "vHandlerGoroutines") {
+			continue
+		}
+		for _, fr := range []string{"server.(*grpcServer).", "server.(*httpCache).", "disk.(*diskCache).Put", "disk.(*diskCache).get(", "disk.(*diskCache).Get"} {
+			if strings.Contains(g, fr) {
+				out = append(out, g)
+				break
+			}
+		}
+	}
+	return out
+}
+
+// C14 (resources) for uploads that end badly: refused for lack of space (item larger than the
+// cache, hard limit), rejected for not matching their digest, or aborted by the client.  Afterwards
+// no goroutine is left inside a handler, no descriptor points into the cache directory, nothing is
+// reserved and no temporary file is left.
+func TestVerifServerRefusedUploadLeaks(t *testing.T) {
+	rec := vNewRecorder(t, "uploadleak")
+	defer rec.Close(t)
+	rng := vNewRand("uploadleak")
+	if _, err := os.ReadDir("/proc/self/fd"); err != nil {
+		t.Skip("no /proc/self/fd")
+	}
+	old := debug.SetGCPercent(-1)
+	defer debug.SetGCPercent(old)
+	web := vNewWeb()
+	defer web.srv.Close()
+	rec.Set("rule", "cache of 64 KiB (and the same with a hard limit) x 12 write paths x {blob larger than the cache, flipped byte, truncated, client abort}, SpliceBlob of stored chunks whose concatenation exceeds the cache: afterwards no handler goroutine, no descriptor into the cache directory, nothing reserved, directory = index (GC off)")
+	paths := []string{"httpPut", "httpPutCL", "httpPutZstd", "batch", "batchZstd", "bsWrite", "bsWriteZstd", "acInline", "acInlineStdout", "fetchBlob"}
+	for _, mode := range []string{"zstd", "uncompressed"} {
+		for _, hard := range []int64{0, 64 << 10} {
+			f := vNewFix(t, vFixOpts{mode: mode, maxSize: 64 << 10, hardLimit: hard, validateAC: true})
+			rdir, _ := os.Readlink(f.dir)
+			if rdir == "" {
+				rdir = f.dir
+			}
+			leaksSeen := 0
+			settle := func(sig string) {
+				var gs, fds []string
+				patience := 300 // 3 s; short once leaks were seen twice (they do not go away)
+				if leaksSeen >= 2 {
+					patience = 20
+				}
+				for i := 0; i < patience; i++ {
+					gs, fds = vHandlerGoroutines(), vOpenFdsInto(rdir)
+					if len(gs) == 0 && len(fds) == 0 {
+						break
+					}
+					time.Sleep(10 * time.Millisecond)
+				}
+				_, reserved, _, _ := f.cache.Stats()
+				rec.Count(fmt.Sprintf("settled.goroutines=%d.fds=%d", len(gs), len(fds)))
+				if len(gs) > 0 || len(fds) > 0 {
+					leaksSeen++
+				}
+				if len(gs) > 0 {
+					first := gs[0]
+					if len(first) > 700 {
+						first = first[:700]
+					}
+					rec.Violation("C14", "uploadleak.goroutine", fmt.Sprintf("%s: %d goroutine(s) still inside a handler 3 s after the request ended, e.g. %s", sig, len(gs), first), map[string]interface{}{"case": sig})
+				}
+				if len(fds) > 0 {
+					rec.Violation("C14", "uploadleak.fd", fmt.Sprintf("%s: descriptors into the cache directory stay open: %v", sig, fds), map[string]interface{}{"case": sig})
+				}
+				if reserved != 0 {
+					// a reservation is returned by the upload's own goroutine, which may outlive the handler
+					// by a moment: look again before calling it a leak
+					for i := 0; i < 300 && reserved != 0; i++ {
+						time.Sleep(10 * time.Millisecond)
+						_, reserved, _, _ = f.cache.Stats()
+					}
+				}
+				if reserved != 0 {
+					buf := vStackBuf[:runtime.Stack(vStackBuf, true)]
+					var who []string
+					for _, g := range strings.Split(string(buf), "\n\n") {
+						if strings.Contains(g, "bazel-remote/v2/cache/disk") && !strings.Contains(g, "containsWorker") && !strings.Contains(g, "performQueuedEvictions") {
+							if len(g) > 600 {
+								g = g[:600]
+							}
+							who = append(who, g)
+						}
+					}
+					rec.Violation("C14", "uploadleak.reserved", fmt.Sprintf("%s: %d bytes stay reserved 3 s after the request ended; goroutines in the disk cache: %v", sig, reserved, who), map[string]interface{}{"case": sig})
+				}
+			}
+			// a chunk that fits, spliced three times: the result does not
+			chunk := rng.Bytes(24 << 10)
+			cd := f.vPutBlob(t, chunk)
+			for _, withDigest := range []bool{true, false} {
+				rec.Case()
+				whole := bytes.Repeat(chunk, 3)
+				req := &pb.SpliceBlobRequest{ChunkDigests: []*pb.Digest{cd, cd, cd}}
+				if withDigest {
+					req.BlobDigest = &pb.Digest{Hash: vSha(whole), SizeBytes: int64(len(whole))}
+				}
+				_, err := f.cas.SpliceBlob(context.Background(), req)
+				sig := fmt.Sprintf("mode=%s hard=%d splice of 3 stored chunks digest=%v -> %s", mode, hard, withDigest, vGRPCCode(err))
+				rec.Note(sig)
+				rec.Distinct(sig)
+				if err == nil {
+					rec.Violation("C05", "uploadleak.oversize-accepted", sig+": an item larger than the cache was accepted", nil)
+				}
+				settle(sig)
+			}
+			for _, p := range paths {
+				for _, k := range []string{"oversize", "flipped", "truncated", "abort"} {
+					if k == "abort" && !strings.HasPrefix(p, "bsWrite") && p != "fetchBlob" {
+						continue
+					}
+					rec.Case()
+					n := 3000 + rng.Intn(20000)
+					kind := k
+					if k == "oversize" {
+						n, kind = 70<<10+rng.Intn(5000), "good"
+					}
+					u := vMakeUpload(rng, p, kind, n)
+					acked, detail := f.vDoUpload(t, rng, u, web)
+					sig := fmt.Sprintf("mode=%s hard=%d %s %s n=%d -> acked=%v %s", mode, hard, p, k, n, acked, detail)
+					rec.Note(sig)
+					rec.Count(p + "." + k + "." + detail)
+					rec.Distinct(fmt.Sprintf("%s:%d:%s:%s", mode, hard, p, k))
+					if acked && k != "oversize" {
+						rec.Violation("C01", "uploadleak.bad-acked", sig, nil)
+					}
+					settle(sig)
+				}
+			}
+			f.Close()
+		}
 	}
 }
